@@ -27,7 +27,7 @@ NAMES = ["x", "-", "target", "A-B", "A", "A->B", "f(r,A)", "A.atomic_mass", "y",
 VALUES = ["2.5", "LAMMPS", "as.zero"]
 
 TARGETS = {n: "_config_parser._RawConfigParser (default_section='Variables', ExtendedInterpolation) and every ConfigParser accessor" for n in
-           ("unused_variable", "two_unused_variables", "unused_variable_fs", "placeholder_value", "cross_section_placeholder", "nested_cross_section", "placeholder_twice")}
+           ("unused_variable", "two_unused_variables", "unused_variable_fs", "placeholder_value", "cross_section_placeholder", "nested_cross_section", "placeholder_twice", "repeated_placeholder")}
 
 
 def make(base):
@@ -201,6 +201,77 @@ def _rp_nested(place, val, shadow, lib):
   return False, "nested placeholder equals substitution", "agree"
 
 
+# a place-holder may be used more than once in a value, and two place-holders of one value may lead to the same entry
+TEMPLATES_REPEATED = {"Tabulation": "${V}", "Pair": "as.buck ${V} ${V} 3.0 >=${V} as.constant ${V}", "Potential-Form": "A*r + ${V}*${V}", "EAM-Embed": "as.polynomial ${V} ${V}",
+                      "EAM-Density": "as.polynomial ${V} 2 ${V}", "Species": "${V}", "Table-Form:tab": "0 ${V} 1 ${V} 2 3 3 4"}
+REPEAT_KINDS = ["variable", "variable-of-variable", "cross-section", "cross-section-of-variable", "diamond"]
+
+
+def _repeated(sec, key, num, kind):
+  tmpl = OD((s, OD(e)) for s, e in BASE.items())
+  subst = OD((s, OD(e)) for s, e in BASE.items())
+  variables = []
+  if kind == "variable":
+    variables, ph = [("my_variable", num)], "${my_variable}"
+  elif kind == "variable-of-variable":
+    variables, ph = [("base_value", num), ("my_variable", "${base_value}")], "${my_variable}"
+  elif kind == "cross-section":
+    tmpl["Orphan"]["my value"] = subst["Orphan"]["my value"] = num
+    ph = "${Orphan:my value}"
+  elif kind == "cross-section-of-variable":
+    variables = [("base_value", num)]
+    tmpl["Orphan"]["my value"] = "${base_value}"
+    subst["Orphan"]["my value"] = num
+    ph = "${Orphan:my value}"
+  else:
+    # two different place-holders of one value that both lead to the same third entry
+    variables = [("base_value", num), ("left", "${base_value}"), ("right", "${base_value}")]
+    ph = None
+  t = TEMPLATES_REPEATED[sec]
+  if ph is None:
+    parts = t.split("${V}")
+    t2 = parts[0]
+    for i, p_ in enumerate(parts[1:]):
+      t2 += ("${left}" if i % 2 == 0 else "${right}") + p_
+    tmpl[sec][key] = t2
+  else:
+    tmpl[sec][key] = t.replace("${V}", ph)
+  subst[sec][key] = t.replace("${V}", num)
+  if variables:
+    tmpl = with_vars(tmpl, variables)
+    subst = with_vars(subst, [(n, num) for n, _ in variables])
+  return tmpl, subst
+
+
+def repeated_placeholder(place: int, val: int, kind: int) -> bool:
+  """
+  pre: 0 <= place < 7 and 0 <= val < 4 and 0 <= kind < 5
+  post: _
+  """
+  sec, key = PLACES[place]
+  sec, key, num, k = concrete(sec), concrete(key), concrete(NUMS[val]), concrete(REPEAT_KINDS[kind])
+  with untraced():
+    tmpl, subst = _repeated(sec, key, num, k)
+    a, b = snapshot(make(tmpl)), snapshot(make(subst))
+    a["orphan_sections"] = b["orphan_sections"] = None
+    return a == b
+
+
+def _rp_repeated(place, val, kind):
+  sec, key = PLACES[place]
+  tmpl, subst = _repeated(sec, key, NUMS[val], REPEAT_KINDS[kind])
+  want = snapshot(ConfigParser(io.StringIO(text_of(subst))))
+  try:
+    got = snapshot(ConfigParser(io.StringIO(text_of(tmpl))))
+  except Exception as e:  # noqa
+    return True, "[%s] %s : %s (%s): %s: %s" % (sec, key, tmpl[sec][key], REPEAT_KINDS[kind], type(e).__name__, e), "repeated-placeholder-" + type(e).__name__
+  want["orphan_sections"] = got["orphan_sections"] = None
+  d = _diff(want, got)
+  if d:
+    return True, "[%s] %s : %s (%s) differs from the substituted file in %s" % (sec, key, tmpl[sec][key], REPEAT_KINDS[kind], d), "repeated-placeholder-differs"
+  return False, "repeated place-holders equal substitution", "agree"
+
+
 _IDX = list(range(8))
 
 
@@ -336,4 +407,5 @@ REPLAY = dict(
   cross_section_placeholder=_after_history(_rp_cross, 1),
   nested_cross_section=_after_history(_rp_nested, 1),
   placeholder_twice=_rp_twice,
+  repeated_placeholder=_rp_repeated,
 )
